@@ -195,8 +195,28 @@ func genForms(c *core.Check, emit func(Program) bool) {
 		// numeric literals as conditions
 		"if(0xb0)h1(1);else h1(2)", "if(0xe0)h1(1);else h1(2)", "if(0xE)h1(1);else h1(2)", "return 0xb?1:2", "return !0xb", "return 0x0b&&a", "return 0xen?1:2", "return 0Xe||a", "while(0xb){h1(1);break}", "for(;0xe;){h1(1);break}", "do{h1(1)}while(!0xb)", "return 0b0?1:2", "return 0o0?1:2", "return 0x0?1:2", "return 0x0n?1:2", "return 0b1?1:2", "return 0o7?1:2", "return 0x00?1:2", "return 00?1:2", "return 08?1:2", "return 0.0e1?1:2", "return .0?1:2", "return 0.?1:2", "return 0_0?1:2", "return 0x0_0?1:2", "return 1_0?1:2", "return 0n?1:2", "return 0e5?1:2", "return 0E0?1:2", "return 0.1e-400?1:2", "return '0'?1:2", "return ' '?1:2", "return ``?1:2", "return `${''}`?1:2", "return -0?1:2", "return +0?1:2", "return ~0?1:2", "return [-0?1:2,!-0,!~-1]",
 	}
+	// a parenthesised sequence as the left operand of an expression statement: the parentheses may go only when the last
+	// element binds at least as tightly as the operator that follows
+	for _, in := range []string{"a&&h1(2)", "a||h1(2)", "a??h1(2)", "a?h1(2):h1(4)", "c=h1(2)", "a+h1(2)", "a==h1(2)", "a,h1(2)", "h1(2)", "!a", "a|h1(2)", "a<h1(2)", "a**h1(2)"} {
+		for _, out := range []string{"&&h1(3)", "||h1(3)", "??h1(3)", "+h1(3)", "*h1(3)", "==h1(3)", "<h1(3)", " in{p:h1(3)}", " instanceof h1", "**h1(3)", "&h1(3)", "|h1(3)", "?h1(3):h1(5)", ",h1(3)", ".p=h1(3)", "[h1(3)]", "(h1(3))", "`${h1(3)}`", "?.p"} {
+			forms = append(forms, "var c={};(h1(1),"+in+")"+out, "var c={};h1(0),(h1(1),"+in+")"+out+",h1(6)", "var c={};for((h1(1),"+in+")"+strings.Replace(out, " in{", " in {", 1)+";;)break")
+		}
+	}
+	forms = append(forms,
+		// classes as conditions: evaluating the class runs its extends clause, computed names, static initializers and blocks
+		"if(class{static x=h1(1)}){}", "if(class{[h1(1)](){}}){}", "if(class extends(h1(1),Object){}){}", "if(class{static{h1(1)}}){}", "if(class{m(){}}){}", "if(class{static x=h1(1)});else h1(2)", "while(!class{static x=h1(1)});", "class{static x=h1(1)}?h1(2):h1(3)", "if(function(){h1(1)}){}", "if([h1(1)]){}", "if({p:h1(1)}){}",
+		// lexical declarations with a pattern in a block of their own
+		"{let [q]=b}return 1", "{let {p}=a}return 1", "{const {p=h1(1)}=a||{}}return 1", "{let [q=h1(1)]=[]}return 1", "{let q=b}return 1", "{const q=h1(1),r=h1(2)}return 1", "{let {p:{q}}=a}return 1", "{let [...q]=b}return 1", "if(a){let [q]=b}return 1", "for(;;){let {p}=a;break}return 1",
+		// a tagged template is not allowed in an optional chain
+		"return a==null?void 0:a`x`", "return a==null?void 0:a.p`x`", "return a===null||a===void 0?void 0:a`x`.q", "return a==null?void 0:a.p.q", "return a==null?void 0:a(b)`x`",
+		// let and async as plain names at the start of a for-of head
+		"var r=[];for((let)of[a,b])r.push(let);return r", "var r=[];for((async)of[a,b])r.push(async);return r", "var r=[];for((let)in{p:1})r.push(let);return r", "var async=[a];for(async of async);return async", "var async=a;return (async)=>1",
+	)
 	// expression statements that begin with a parenthesis for a reason, at the very start of a function body and of a script
-	starts := []string{"(class{}).x=5;h1(1)", "(class{static m(){h1(1)}}).m()", "(class{}),h1(2)", "(function(){}).x=5;h1(1)", "(function(){h1(1)})()", "({}).x=5;h1(1)", "({p(){h1(2)}}).p()", "(async function(){h1(1)})()", "(function*(){h1(1)})().next()", "(class{})?.x;h1(1)", "(class{static x=1}).x++;h1(1)", "(function(){})?.x;h1(1)", "({})?.x;h1(1)", "(class{})+h1(1)", "(function(){})+h1(1)", "({})+h1(1)", "(class{})`t`", "(function(){return h1})()`t`", "({a:h1(1)}).a", "({a:h1(1)})", "(class{static p=h1(1)})", "(function(){h1(1)})", "(class{}).name.length;h1(1)", "(class{})[h1(1)]", "(function(){})[h1(1)]", "({})[h1(1)]", "(class{}) instanceof h1;h1(1)", "(function(){}) in {};h1(1)", "(class{})?h1(1):h1(2)", "(function(){})?h1(1):h1(2)", "({})?h1(1):h1(2)", "(class{})&&h1(1)", "(function(){})&&h1(1)", "({})&&h1(1)", "(class{}).x??=h1(1)", "(class A{}).x=h1(1)", "(function f(){}).x=h1(1)", "(async()=>{})().then;h1(1)", "(()=>{}).x=h1(1)", "(()=>{})()", "(a=>a)(h1(1))", "(async a=>a)(h1(1))"}
+	starts := []string{
+		// string literals as statements: only the leading ones are directives, and none may become one
+		`;"use strict";var q=function(){return this}();h1(typeof q)`, `{}"use strict";var q=function(){return this}();h1(typeof q)`, `if(0);"use strict";var q=function(){return this}();h1(typeof q)`, `{"use strict"}var q=function(){return this}();h1(typeof q)`, `;"use strict";for(;;){h1(typeof function(){return this}());break}`, `"use strict";var q=function(){return this}();h1(typeof q)`, `'use strict';h1(typeof function(){return this}())`, `"use\x20strict";var q=function(){return this}();h1(typeof q)`, `("use strict");var q=function(){return this}();h1(typeof q)`, `"a";"use strict";var q=function(){return this}();h1(typeof q)`, `"a";"use strict";h1(typeof function(){return this}())`, `h1(1);"use strict";var q=function(){return this}();h1(typeof q)`, `var q;"use strict";q=function(){return this}();h1(typeof q)`,
+		"(class{}).x=5;h1(1)", "(class{static m(){h1(1)}}).m()", "(class{}),h1(2)", "(function(){}).x=5;h1(1)", "(function(){h1(1)})()", "({}).x=5;h1(1)", "({p(){h1(2)}}).p()", "(async function(){h1(1)})()", "(function*(){h1(1)})().next()", "(class{})?.x;h1(1)", "(class{static x=1}).x++;h1(1)", "(function(){})?.x;h1(1)", "({})?.x;h1(1)", "(class{})+h1(1)", "(function(){})+h1(1)", "({})+h1(1)", "(class{})`t`", "(function(){return h1})()`t`", "({a:h1(1)}).a", "({a:h1(1)})", "(class{static p=h1(1)})", "(function(){h1(1)})", "(class{}).name.length;h1(1)", "(class{})[h1(1)]", "(function(){})[h1(1)]", "({})[h1(1)]", "(class{}) instanceof h1;h1(1)", "(function(){}) in {};h1(1)", "(class{})?h1(1):h1(2)", "(function(){})?h1(1):h1(2)", "({})?h1(1):h1(2)", "(class{})&&h1(1)", "(function(){})&&h1(1)", "({})&&h1(1)", "(class{}).x??=h1(1)", "(class A{}).x=h1(1)", "(function f(){}).x=h1(1)", "(async()=>{})().then;h1(1)", "(()=>{}).x=h1(1)", "(()=>{})()", "(a=>a)(h1(1))", "(async a=>a)(h1(1))"}
 	for _, p := range starts {
 		if !emit(Program{fn(p), "fn", [][]string{{"1"}, {"obj"}}}) {
 			return
@@ -210,7 +230,7 @@ func genForms(c *core.Check, emit func(Program) bool) {
 	}
 	for _, p := range forms {
 		for _, strict := range []string{"", `"use strict";`} {
-			if strict != "" && (strings.Contains(p, "let[0]") || strings.Contains(p, "00?") || strings.Contains(p, "08?")) {
+			if strict != "" && (strings.Contains(p, "let[0]") || strings.Contains(p, "(let)") || strings.Contains(p, "00?") || strings.Contains(p, "08?")) {
 				continue
 			}
 			if !emit(Program{fn(strict + pre + p), "fn", vec}) {
